@@ -90,6 +90,9 @@ func AnalyzeMetrics15sShortcut(script *logql_parser.LogQLScript) bool {
 			return false
 		}
 		if ppl.LineFilter != nil {
+			if ppl.LineFilter.Fn != "|=" && ppl.LineFilter.Fn != "|~" {
+				return false
+			}
 			str, err := ppl.LineFilter.Val.Unquote()
 			if str != "" || err != nil {
 				return false
